@@ -51,7 +51,7 @@ fn timed_call(api: &str, d: u64, sh: &Shared, rx: &Option<may::sync::mpsc::Recei
 
 fn main() {
     let cfg = Config::from_env();
-    let stalls = std::env::var("MAYV_STALL").is_ok();
+    let stalls = std::env::var("MAYV_STALL").is_ok() || std::env::var("MAYV_STALL_AT").is_ok();
     let api_sel = envs("MAYV_API", "mix");
     let ctx_sel = envs("MAYV_CTX", "mix");
     let nact = envn("MAYV_ACTORS", 3) as usize;
